@@ -16,6 +16,7 @@ import Abmarl.Model.SuperDriver
 import Abmarl.Model.CommDriver
 import Abmarl.Model.WrappersDriver
 import Abmarl.Model.GridSimDriver
+import Abmarl.Model.MemberDriver
 /-! Line-protocol driver: one request per line on stdin, one reply per line on stdout. -/
 open Abmarl
 
@@ -56,6 +57,7 @@ def dispatch (line : String) : String :=
       | "wunwrap" => WrappersDriver.handleUnwrap args
       | "ghist" => GridSimDriver.handleHist args
       | "gwinv" => GridSimDriver.handleWInv args
+      | "gmember" => MemberDriver.handle args
       | "ping" => some (.list (.atom "pong" :: args))
       | _ => none
     match r with
